@@ -2,6 +2,7 @@ import Martian.Model.H2Relay
 /-! Line-protocol driver of the h2 relay model (shared by C08 and C09); see go/internal/h2relay. -/
 namespace Martian.Drv.H2Relay
 open Martian Martian.H2Relay
+open Martian.H2Hpack (Rep Ent Dec EncSig DynTab)
 
 def fnv1a (b : Bytes) : UInt32 :=
   b.foldl (fun h x => (h ^^^ x.toUInt32) * 16777619) 2166136261
@@ -55,13 +56,19 @@ def showPrio (p : Prio) : String := s!"{p.dep}/{b01 p.excl}/{p.weight}"
 def joinOr (l : List String) (sep : String) : String := if l.isEmpty then "-" else sep.intercalate l
 def showLens (cs : List Bytes) : String := "+".intercalate (cs.map fun c => toString c.length)
 
+def showUpd (log : List (List Nat)) (stamp : Nat) : String :=
+  match log[stamp]? with
+  | some (u :: us) => "^u" ++ ".".intercalate ((u :: us).map toString)
+  | _ => ""
+
 /-- `hz`: a header block of this direction has been encoded while an earlier one was still queued
-on another stream (F08b class); from then on what the receiver decodes is not predicted. -/
-def showQ (hz : Bool) : QFrame → String
+on another stream (F08b class); from then on what the receiver decodes is not predicted.
+`log`: the size updates the direction's encoder wrote in front of each block it produced. -/
+def showQ (hz : Bool) (log : List (List Nat)) : QFrame → String
   | .data s es p => s!"D{s}:{b01 es}:{digest p}"
-  | .headers s es prio _ fields chunks =>
-    s!"H{s}:{b01 es}:{if prio.isZero then "-" else showPrio prio}:{if hz then "~" else digest fields}:{showLens chunks}"
-  | .push s pr _ fields chunks => s!"U{s}:{pr}:{if hz then "~" else digest fields}:{showLens chunks}"
+  | .headers s es prio st fields chunks =>
+    s!"H{s}:{b01 es}:{if prio.isZero then "-" else showPrio prio}:{if hz then "~" else digest fields}:{showLens chunks}{showUpd log st}"
+  | .push s pr st fields chunks => s!"U{s}:{pr}:{if hz then "~" else digest fields}:{showLens chunks}{showUpd log st}"
   | .priority s p => s!"P{s}:{showPrio p}"
   | .rst s c => s!"R{s}:{c}"
 
@@ -86,11 +93,11 @@ def showSnap (r : Relay) : String :=
   s!"{r.connWin}/{r.initWin}/{r.maxFrame};{joinOr streams ","}"
 
 /-- Frames that reached `dest` of the relay during one step. -/
-def newOut (hz : Bool) (old new : Relay) : List String :=
-  (new.emitted.drop old.emitted.length).map (showQ hz) ++ (new.wrote.drop old.wrote.length).map showCtl
+def newOut (hz : Bool) (log : List (List Nat)) (old new : Relay) : List String :=
+  (new.emitted.drop old.emitted.length).map (showQ hz log) ++ (new.wrote.drop old.wrote.length).map showCtl
 
-def render (hzC hzS : Bool) (old new : Sys) : String :=
-  s!"ok S[{joinOr (newOut hzC old.c2s new.c2s) ","}] C[{joinOr (newOut hzS old.s2c new.s2c) ","}] " ++
+def render (status : String) (hzC hzS : Bool) (old new : Sys) : String :=
+  s!"{status} S[{joinOr (newOut hzC new.flushC old.c2s new.c2s) ","}] C[{joinOr (newOut hzS new.flushS old.s2c new.s2c) ","}] " ++
   "c{" ++ showSnap new.c2s ++ "} s{" ++ showSnap new.s2c ++ "}"
 
 /-- Split trailing `enc=<n>` / `ord=<sids>` arguments off an op. -/
@@ -100,7 +107,32 @@ def splitExtras (toks : List String) : List String × Option Nat × Option (List
     else if t.startsWith "ord=" then (acc.1, acc.2.1, natList (t.drop 4).toString)
     else (acc.1 ++ [t], acc.2.1, acc.2.2)) ([], none, none)
 
+def parseRep (t : String) : Option Rep :=
+  match t.toList with
+  | 'u' :: rest => (String.ofList rest).toNat?.map Rep.sizeUpdate
+  | 'i' :: rest => (String.ofList rest).toNat?.map Rep.indexed
+  | 'a' :: rest =>
+    match (String.ofList rest).splitOn ":" with
+    | [n, v] => do let nb ← unhexAux n.toList []; let vb ← unhexAux v.toList []; some (.litInc nb vb)
+    | _ => none
+  | 'l' :: rest =>
+    match (String.ofList rest).splitOn ":" with
+    | [n, v] => do let nb ← unhexAux n.toList []; let vb ← unhexAux v.toList []; some (.lit nb vb)
+    | _ => none
+  | 'r' :: rest =>
+    match (String.ofList rest).splitOn ":" with
+    | [k, v] => do let kk ← k.toNat?; let vb ← unhexAux v.toList []; some (.litIncRef kk vb)
+    | _ => none
+  | _ => none
+
+def parseReps (t : String) : Option (List Rep) :=
+  if t = "-" then some [] else (t.splitOn ",").mapM parseRep
+
 def parseFrame : List String → Option (Dir × Frame)
+  | ["hb", e, sid, es, prio, reps] => do
+    let d ← parseDir e; let s ← sid.toNat?; let b ← parseBool es
+    let p ← parsePrio prio; let r ← parseReps reps
+    some (d, .headersRep s b p r)
   | ["data", e, sid, es, pad, payload] => do
     let d ← parseDir e; let s ← sid.toNat?; let b ← parseBool es; let p ← parseBytes payload
     let pl ← if pad = "-" then some none else pad.toNat?.map some
@@ -136,12 +168,46 @@ def parseFrame : List String → Option (Dir × Frame)
     some (d, .windowUpdate s i)
   | _ => none
 
+/-- Is `b` a sequence of "literal without indexing, new name" fields without Huffman (what the
+model-compared harness endpoints send)? Other blocks are opaque to the model. -/
+def litStr (fuel : Nat) : Bytes → Option Bytes
+  | [] => none
+  | c :: rest =>
+    if c.toNat ≥ 128 then none
+    else if c.toNat < 127 then (if c.toNat ≤ rest.length then some (rest.drop c.toNat) else none)
+    else
+      let rec go (fuel m acc : Nat) : Bytes → Option (Nat × Bytes)
+        | [] => none
+        | x :: xs =>
+          match fuel with
+          | 0 => none
+          | fuel + 1 =>
+            let acc' := acc + (x.toNat % 128) * 2 ^ m
+            if x.toNat ≥ 128 then go fuel (m + 7) acc' xs else some (acc', xs)
+      match go fuel 0 127 rest with
+      | some (n, r) => if n ≤ r.length then some (r.drop n) else none
+      | none => none
+
+def isLiteralBlock : Nat → Bytes → Bool
+  | _, [] => true
+  | 0, _ => false
+  | fuel + 1, c :: rest =>
+    if c != 0 then false
+    else match litStr 5 rest with
+      | none => false
+      | some r1 => match litStr 5 r1 with
+        | none => false
+        | some r2 => isLiteralBlock fuel r2
+
 structure DrvSt where
   sys : Sys := {}
+  oom : Bool := false          -- an input outside the model's domain was seen: nothing is predicted any more
   pendC : Option Nat := none   -- stream of the header block the client is in the middle of sending
   pendS : Option Nat := none
   hzC : Bool := false          -- F08b class reached on the client-to-server relay
   hzS : Bool := false
+  hpDec : Dec := {}            -- `hp.*` ops: a decoder and an encoder on their own
+  hpEnc : EncSig := {}
 
 /-- `none` once the model reached a Go panic. -/
 abbrev St := Option DrvSt
@@ -150,12 +216,12 @@ def init : St := some {}
 /-- Inputs for which the Go loops do not terminate or unsigned arithmetic wraps: outside the model. -/
 def outOfModel (s : Sys) (d : Dir) : Frame → Bool
   | .data .. | .headers .. | .pushPromise .. | .continuation .. => (s.relay d).maxFrame < 5
-  | .settings kvs => (kvs.filter fun kv => kv.1 = 4).length > 1
   | _ => false
 
 /-- Stream whose header block this frame completes / leaves unfinished. -/
 def blockEnd : Frame → Option Nat
   | .headers sid _ true _ _ | .pushPromise sid _ true _ | .continuation sid true _ => some sid
+  | .headersRep sid _ _ _ => some sid
   | _ => none
 def blockOpen : Frame → Option Nat
   | .headers sid _ false _ _ | .pushPromise sid _ false _ | .continuation sid false _ => some sid
@@ -164,10 +230,49 @@ def blockOpen : Frame → Option Nat
 def hazard (r : Relay) (sid : Nat) : Bool :=
   r.keys.any fun t => t != sid && (r.ob t).q.any fun f => f.stamp?.isSome
 
+def showTab (t : DynTab) : String :=
+  s!"{t.ents.length}:{digest (H2Hpack.litEncode t.ents.reverse)}"
+
+/-- `hp.*` ops (see go/internal/h2relay/hp.go). -/
+def hpStep (ds : DrvSt) : List String → Option (DrvSt × String)
+  | ["hp.new", m, a] => do
+    let mm ← m.toNat?; let aa ← a.toNat?
+    let d : Dec := { tab := { maxSize := mm }, allowed := aa }
+    some ({ ds with hpDec := d, hpEnc := {} }, s!"ok tab={showTab d.tab}")
+  | ["hp.allow", v] => do
+    let vv ← v.toNat?
+    let d := { ds.hpDec with allowed := vv }
+    some ({ ds with hpDec := d }, s!"ok tab={showTab d.tab}")
+  | ["hp.setmax", v] => do
+    let vv ← v.toNat?
+    let d := { ds.hpDec with tab := ds.hpDec.tab.setMax vv }
+    some ({ ds with hpDec := d }, s!"ok tab={showTab d.tab}")
+  | ["hp.encmax", v] => do
+    let vv ← v.toNat?
+    some ({ ds with hpEnc := ds.hpEnc.setMax vv }, s!"ok tab={showTab ds.hpDec.tab}")
+  | ["hp.enclimit", v] => do
+    let vv ← v.toNat?
+    some ({ ds with hpEnc := ds.hpEnc.setLimit vv }, s!"ok tab={showTab ds.hpDec.tab}")
+  | ["hp.block", reps] => do
+    let rs ← parseReps reps
+    match ds.hpDec.decodeFull rs with
+    | none => some ({ ds with hpDec := {}, hpEnc := {} }, "err")
+    | some (d, fs) => some ({ ds with hpDec := d }, s!"ok f={digest (H2Hpack.litEncode fs)} tab={showTab d.tab}")
+  | ["hp.enc"] =>
+    let r := ds.hpEnc.flush
+    some ({ ds with hpEnc := r.1 }, s!"ok upd={joinOr (r.2.map toString) "."}")
+  | _ => none
+
 def step (st : St) (toks : List String) : St × String :=
   match st with
   | none => (none, "dead")
   | some ds =>
+    if ds.oom then (st, "out-of-model") else
+    if (toks.head?.getD "").startsWith "hp." then
+      match hpStep ds toks with
+      | some (ds', line) => (some ds', line)
+      | none => (st, "bad-op")
+    else
     let s := ds.sys
     let (ts, enc, ord) := splitExtras toks
     match parseFrame ts with
@@ -185,11 +290,28 @@ def step (st : St) (toks : List String) : St × String :=
       match sysStep s d f (List.replicate (enc.getD 0) 0) order with
       | none => (none, "panic")
       | some s' =>
-        let hz := match blockEnd f with | some sid => hazard (s'.relay d) sid | none => false
+        -- F08b class: (1) another stream still holds an encoded block; (2) this block carries a
+        -- size update (the encoder had one pending) and stays queued itself
+        let hz := match blockEnd f with
+          | some sid => hazard (s'.relay d) sid ||
+              ((s.hp d).enc.pending &&
+               ((s'.relay d).ob sid).q.any fun q => q.stamp? == some (s.relay d).nextStamp)
+          | none => false
         let pend' := blockOpen f
         let ds' : DrvSt := match d with
           | .c2s => { ds with sys := s', pendC := pend', hzC := ds.hzC || hz }
           | .s2c => { ds with sys := s', pendS := pend', hzS := ds.hzS || hz }
-        (some ds', render ds'.hzC ds'.hzS s s')
+        -- an opaque block that is not literal-only (hand-written or shrunk input): not predicted
+        let opaqueBad := match f with
+          | .headers _ _ true _ frag => !isLiteralBlock frag.length frag
+          | .pushPromise _ _ true frag => !isLiteralBlock frag.length frag
+          | .continuation _ true _ =>
+            let b := (match d with | .c2s => s'.dc | .s2c => s'.ds).hbuf
+            !isLiteralBlock b.length b
+          | _ => false
+        if opaqueBad then (some { ds' with oom := true }, "out-of-model") else
+        if (s'.errC && !s.errC) || (s'.errS && !s.errS) then
+          (none, render "err" ds'.hzC ds'.hzS s s')   -- the direction ends; the harness abandons the case
+        else (some ds', render "ok" ds'.hzC ds'.hzS s s')
 
 end Martian.Drv.H2Relay
